@@ -86,6 +86,7 @@ def random_geometry_recipe(rng, kind):
         r["colors"] = rng.choice([None, "vertex"])
         r["extras"] = rng.choice([[], [], [], ["cloud"], ["empty"], ["cloud", "empty"]])
         r["naming"] = rng.choice([None, None, "same", "camera"])
+        r["base"] = rng.choice(["world", "world", "root"])
     elif kind == "points":
         r["n"] = rng.choice([1, 3, 17])
         r["colors"] = rng.random() < 0.5
@@ -147,7 +148,7 @@ def build_geometry(r, fmt=None):
         import random
 
         rr = random.Random(r["salt"])
-        sc = trimesh.Scene()
+        sc = trimesh.Scene(base_frame=r.get("base", "world"))
         geoms = []
         for i, part in enumerate(r["parts"]):
             V, F = meshes.build(part)
@@ -155,7 +156,7 @@ def build_geometry(r, fmt=None):
             if r.get("colors") == "vertex":
                 g.visual.vertex_colors = np.column_stack([rs.randint(0, 256, (len(V), 3)), np.full(len(V), 255)]).astype(np.uint8)
             geoms.append(g)
-        nodes = ["world"]
+        nodes = [r.get("base", "world")]
         used = set()
         extras = list(r.get("extras") or [])
         base = (fmt or "").split("_", 1)[1] if (fmt or "").startswith(("zip_", "targz_", "tarbz2_", "bz2_")) else (fmt or "")
@@ -172,7 +173,7 @@ def build_geometry(r, fmt=None):
             elif r.get("naming") == "camera" and j == 0:
                 node = "camera_mount"  # a name that merely starts like the scene's camera node
             if gi not in used:
-                sc.add_geometry(geoms[gi], node_name=node, geom_name=f"geom{gi}", parent_node_name=parent if parent != "world" else None, transform=M)
+                sc.add_geometry(geoms[gi], node_name=node, geom_name=f"geom{gi}", parent_node_name=parent if parent != r.get("base", "world") else None, transform=M)
                 used.add(gi)
             else:
                 sc.graph.update(frame_to=node, frame_from=parent, matrix=M, geometry=f"geom{gi}")
